@@ -98,7 +98,14 @@ fn remove_percent_suffix(arg: &str) -> &str {
 }
 
 fn ensure_display_width_1(what: &str, arg: String) -> String {
-    match arg.grapheme_indices(true).count() {
+    // One grapheme cluster that is one column wide: a double-width symbol would make the
+    // syntax and diff sections of a line wrap at different positions.
+    let width = if arg.grapheme_indices(true).count() == 1 {
+        arg.width()
+    } else {
+        arg.grapheme_indices(true).count()
+    };
+    match width {
         INLINE_SYMBOL_WIDTH_1 => arg,
         width => fatal(format!(
             "Invalid value for {what}, display width of \"{arg}\" must be {INLINE_SYMBOL_WIDTH_1} but is {width}",
